@@ -31,7 +31,7 @@ class Rec(dict):
 
 _CALLS = {'len': len, 'min': min, 'max': max, 'sum': sum, 'int': int, 'abs': abs, 'any': any, 'all': all, 'bool': bool,
           'range': range, 'enumerate': enumerate, 'zip': zip, 'list': list, 'tuple': tuple, 'sorted': sorted, 'reversed': reversed,
-          'next': lambda it, *d: next(iter(it), *d), 'set': set, 'str': str}
+          'next': lambda it, *d: next(iter(it), *d), 'set': set, 'str': str, 'print': lambda *a, **k: None}
 
 
 def stub(fn):
@@ -50,11 +50,15 @@ def ev(e, env):
         b = ev(e.value, env)
         if isinstance(b, (NS, Rec)) and hasattr(b, e.attr):
             return getattr(b, e.attr)
+        if b is None or isinstance(b, (NS, int, float, str, tuple, list)):
+            raise AttributeError(f'{type(b).__name__!r} object has no attribute {e.attr!r}')    # what the code itself would raise
         raise ModelError(f'minieval: attribute {ast.unparse(e)}')
     if isinstance(e, ast.Subscript):
         b = ev(e.value, env)
         if isinstance(b, Rec):
             return b[ev(e.slice, env)]
+        if b is None:
+            raise TypeError("'NoneType' object is not subscriptable")
         if not isinstance(b, (list, tuple, dict, str)):
             raise ModelError(f'minieval: subscript on {type(b).__name__}: {ast.unparse(e)}')
         if isinstance(e.slice, ast.Slice):
@@ -96,7 +100,12 @@ def ev(e, env):
     if isinstance(e, ast.IfExp):
         return ev(e.body, env) if ev(e.test, env) else ev(e.orelse, env)
     if isinstance(e, (ast.Tuple, ast.List)):
-        r = [ev(x, env) for x in e.elts]
+        r = []
+        for x in e.elts:
+            if isinstance(x, ast.Starred):
+                r.extend(ev(x.value, env))
+            else:
+                r.append(ev(x, env))
         return tuple(r) if isinstance(e, ast.Tuple) else r
     if isinstance(e, ast.Dict):
         return {ev(k, env): ev(v, env) for k, v in zip(e.keys, e.values)}
@@ -195,6 +204,8 @@ def run(stmts, env):
         if isinstance(st, ast.Return):
             raise Returned(ev(st.value, env) if st.value is not None else None)
         if isinstance(st, ast.Expr) and isinstance(st.value, ast.Constant):
+            continue
+        if isinstance(st, ast.Expr) and isinstance(st.value, ast.Call) and isinstance(st.value.func, ast.Name) and st.value.func.id == 'print':
             continue
         if isinstance(st, ast.Expr) and isinstance(st.value, ast.Call) and isinstance(st.value.func, ast.Attribute) \
                 and st.value.func.attr not in ('append', 'extend', 'reverse', 'insert', 'add'):
